@@ -16,9 +16,9 @@
        streamflow.cwl.command.CWLCommand._get_executable_command -> sf_tokens / sf_sorted / sf_cmd
      streamflow.cwl.translator._create_command,
        _get_command_token_processor(_from_input)               -> sf_arg_flags / sf_input_flags
-         (incl. "By default, do not escape composite command tokens": an array input whose binding
-          has no shellQuote gets shell_quote=False and is_shell_command=True)
-     streamflow.cwl.command.CWLCommand.execute                -> sf_line (cmd joined by " "; with
+         (incl. _is_forward_only: "By default, do not escape composite command tokens" applies only to
+          arrays whose items are bound themselves, which are outside this model)
+     streamflow.cwl.command.CWLCommand.execute                -> sf_streams (stdout/stderr defaults), sf_line (cmd joined by " "; with
          ShellCommandRequirement it is what the inner /bin/sh -c receives after the base64 round trip,
          which is not modelled) ; streamflow.core.utils.create_command is Shell.Model.create_command.
    The binding language modelled: string / int / boolean / null scalars, arrays of such with a binding on
@@ -133,15 +133,33 @@ Definition isort {A K} (lt : K -> K -> bool) (key : A -> K) (l : list A) : list 
 
 Definition quoted (shell : bool) (b : binding) : bool := negb shell || opt_default true (b_quote b).
 
+(* The items of an array bound without valueFrom and without itemSeparator are bound one by one, each with a FRESH
+   binding (cwltool: st["inputBinding"] = {}): they are quoted whatever the array's own shellQuote says; only the
+   prefix follows it. *)
+Definition items_fresh (b : binding) (v : value) : bool :=
+  match b_vf b, b_isep b, v with
+  | VfNone, None, Arr (_ :: _) => true
+  | _, _, _ => false
+  end.
+Definition spec_pre (b : binding) : list string :=
+  match b_prefix b with Some p => if nonempty_s p then [p] else [] | None => [] end.
+Definition spec_gen_pieces (q : bool) (b : binding) (v : value) : list piece :=
+  if items_fresh b v then
+    match v with
+    | Arr l => map (fun s => (s, q)) (spec_pre b) ++ map (fun s => (s, true)) (map repr l)
+    | Sc _ => []
+    end
+  else map (fun s => (s, q)) (spec_generate b v).
+
 (* a binding that generates no argument takes no part (it has nothing to place) *)
-Definition spec_entry (k : skey) (q : bool) (l : list string) : list (skey * list piece) :=
-  match l with [] => [] | _ => [(k, map (fun s => (s, q)) l)] end.
+Definition spec_entry (k : skey) (l : list piece) : list (skey * list piece) :=
+  match l with [] => [] | _ => [(k, l)] end.
 
 Fixpoint spec_args (t : tool) (j : job) (i : N) (l : list binding) : list (skey * list piece) :=
   match l with
   | [] => []
   | b :: r =>
-      spec_entry (KArg (b_pos b) i) (quoted (t_shell t) b) (spec_generate b (eval_vf b j (Sc VNull)))
+      spec_entry (KArg (b_pos b) i) (spec_gen_pieces (quoted (t_shell t) b) b (eval_vf b j (Sc VNull)))
       ++ spec_args t j (N.succ i) r
   end.
 
@@ -151,7 +169,7 @@ Definition spec_input (t : tool) (j : job) (i : input) : list (skey * list piece
   | Some b =>
       let v := lookup j (i_name i) in
       if is_null v then []                       (* a null input is not bound at all *)
-      else spec_entry (KIn (b_pos b) (i_name i)) (quoted (t_shell t) b) (spec_generate b (eval_vf b j v))
+      else spec_entry (KIn (b_pos b) (i_name i)) (spec_gen_pieces (quoted (t_shell t) b) b (eval_vf b j v))
   end.
 
 Definition spec_bindings (t : tool) (j : job) : list (skey * list piece) :=
@@ -188,13 +206,12 @@ Definition sf_value_for_command (v : value) (isep : option string) : fval :=
 (* the translator's (is_shell_command, shell_quote) for an argument and for an input *)
 Definition sf_arg_flags (t : tool) (b : binding) : bool * bool :=
   (t_shell t, opt_default true (b_quote b)).
+(* For an array input the translator keeps "By default, do not escape composite command tokens"
+   (shell_quote=False, is_shell_command=True) only when the nested processors are themselves bound
+   (_is_forward_only false); arrays of the modelled language have no binding on their items, so they get the
+   same flags as a scalar (after the fix of finding 1, see design/notes/C30.md). *)
 Definition sf_input_flags (t : tool) (i : input) (b : binding) : bool * bool :=
-  if i_arr i then
-    match b_quote b with
-    | None => (true, false)        (* By default, do not escape composite command tokens *)
-    | Some q => (t_shell t, q)
-    end
-  else (t_shell t, opt_default true (b_quote b)).
+  (t_shell t, opt_default true (b_quote b)).
 
 Definition sf_escape (v : sval) : sval := VStr (quote (repr v)).
 
@@ -270,3 +287,18 @@ Definition sf_line (t : tool) (j : job) : string := join " " (sf_cmd t j).
 
 (* the argument vector the tool receives, as far as the shell fragment of Shell.Model can tell *)
 Definition sf_argv (t : tool) (j : job) : option (list string) := sh_words (sf_line t j).
+
+(* CWLCommand.execute: stdout = eval(self.stdout) if not None else STDOUT; stderr likewise, else STDOUT
+   (before the fix of finding 4: else stdout, i.e. 2>&1 into the stdout file) *)
+Definition sf_streams (stdout stderr : option string) : stream * stream :=
+  (match stdout with Some f => SStr f | None => SStdout end,
+   match stderr with Some f => SStr f | None => SStdout end).
+
+(* the file fd 1 / fd 2 of the tool end up on, read off create_command's redirections; None = not a file *)
+Definition sf_stdout_target (stdout stderr : option string) : option string :=
+  match fst (sf_streams stdout stderr) with SStr f => Some f | _ => None end.
+Definition sf_stderr_target (stdout stderr : option string) : option string :=
+  let (o, e) := sf_streams stdout stderr in
+  let e1 := match e with SDevnull => SStr "/dev/null" | x => x end in
+  if stream_eqb e1 o then (match o with SStr f => Some f | _ => None end)      (* 2>&1 *)
+  else match e1 with SStr f => Some f | _ => None end.
